@@ -103,7 +103,9 @@ CLAIMS.update({
         text=("Theorems over the Q model of the rational scalers for ALL vectors: SumScaler sums to 1 and each cell is x/sum; "
               "MaxAbs largest |.| is 1; MinMax is the affine map with min->lo, max->hi (constant criterion -> lo); Cenit "
               "ideal->1, anti-ideal->0 per objective; PushNegatives shifts exactly the vectors with a negative minimum, new "
-              "minimum 0; AddValueToZero adds exactly to vectors containing a zero; a matrix-target scaler acts on each "
+              "minimum 0 (also for criteria stored in 8/16/32-bit integers: the repaired code widens to 64 bits, which is "
+              "proved exact; the old in-type arithmetic is refuted on int8 [-127,-2,10], Model/IntStorage.v, compared cell "
+              "for cell on integer matrices); AddValueToZero adds exactly to vectors containing a zero; a matrix-target scaler acts on each "
               "column separately (col j of output = f(col j)); VectorScaler output has unit norm and StandarScaler output mean 0 "
               "and variance 1 for ANY divisor s with s*s equal to the rational core (the real square root is one), also with only "
               "with_mean or only with_std. Partial: "
@@ -145,12 +147,16 @@ CLAIMS.update({
         text=("PARTIAL BY NATURE. Theorems about an ownership state machine (cells owned by the object / memo caches / fresh "
               "cells; handles; read, write-through-handle, run-method): if every accessor hands out a copy then for EVERY "
               "history the object reports what it reported before; running a method never changes it; one sharing accessor "
-              "suffices to break it (refutation witness = the repaired dominators_of defect). That each REAL accessor copies "
+              "suffices to break it (refutation witness = the repaired dominators_of defect). A heap model (the object's parts "
+              "point to cells, the caller keeps the addresses of the arrays he handed over) covers the first clause: a "
+              "constructor that copies each array + copying accessors => after every history of reads, writes through "
+              "returned objects AND through the caller's own arrays, and method runs, every part reports what was handed "
+              "in; a constructor that adopts one array, or one sharing accessor, breaks it. That each REAL accessor copies "
               "is established only by the correspondence: every enumerated accessor x every mutation route, constructor "
               "inputs, and random read/write/run histories with bit-exact snapshots; the enumeration is checked against the "
               "Coq model's size and against the public members of the real classes."),
         design="§5 C02",
-        note=NOTE_COMMON + "Model: coq/Model/Alias.v. Known finding C02-pandas-string-index-buffer is reported as KNOWN-FINDING. "
+        note=NOTE_COMMON + "Model: coq/Model/Alias.v, coq/Model/Heap.v. An interpreter crash after a write through a returned Index's label buffer is the same known finding (decided by replaying the history without those writes in a forked child). Known finding C02-pandas-string-index-buffer is reported as KNOWN-FINDING. "
              "result.e_ / extra_ and private attributes are outside the property's list.",
         technique="Coq proof over an ownership abstraction + differential history testing with bitwise snapshots"),
     "C05": dict(
@@ -187,7 +193,8 @@ CLAIMS.update({
         text=("Theorems for ALL matrices / condition lists: the mask the implementation builds (columns looked up per written "
               "condition) equals the specification 'every condition holds on the criterion it names'; survivors characterised "
               "by label lookup; any permutation of the conditions gives the same result; any permutation of the criteria "
-              "(with the rows) gives the same survivors; a missing criterion raises iff not ignored (and is then the only "
+              "(with the rows) gives the same survivors; every operator means its order relation on the rationals, operators "
+              "come in complementary pairs, single-valued sets are == / !=, two lists of conditions conjoin; a missing criterion raises iff not ignored (and is then the only "
               "condition skipped); FilterNonDominated keeps exactly the alternatives nobody (strictly) dominates. "
               "Findings.v refutes the unrepaired matrix-order pairing. Tie to /repo: all 9 filter classes + non-dominated, "
               "every key order, absent criteria, both settings, survivors by label."),
@@ -198,7 +205,9 @@ CLAIMS.update({
         text=("PARTIAL. Theorems for EVERY source of filled values (the KNN / Iterative estimators enter as an arbitrary "
               "function): shape kept, every observed cell keeps exactly its value, every gap gets a value; SimpleImputer: "
               "observed cells unchanged, each gap gets the configured statistic of ITS OWN criterion, column-locality, mean "
-              "between the extremes. The values KNN/Iterative choose are scikit-learn's; parameter forwarding is checked "
+              "between the extremes, the most frequent value is an observed value of maximal frequency, a constant strategy "
+              "fills with the constant, a criterion without gaps is untouched, the filling value depends on the observed "
+              "values only. The values KNN/Iterative choose are scikit-learn's; parameter forwarding is checked "
               "differentially (bitwise) against directly constructed scikit-learn estimators."),
         design="§5 C15",
         note=NOTE_COMMON + "Model: coq/Model/Impute.v (median / most-frequent with smallest-value tie-break executable).",
@@ -231,7 +240,8 @@ CLAIMS.update({
     "C18": dict(
         text=("Theorems for ALL rankings: the untied ranking is a permutation of 1..n, keeps every strict preference, breaks "
               "ties by order of appearance and equals the original when there are no ties; a comparator cell depends on the "
-              "ranking only as a name->rank map (listing order irrelevant); diagonal values: distance 0, covariance = variance, "
+              "ranking only as a name->rank map (listing order irrelevant); tables are square over the rankings, cell (i,j) "
+              "compares ranking i with ranking j, covariance and distance tables are symmetric; diagonal values: distance 0, covariance = variance, "
               "R2 = 1, cov(v,v) = var(v) (so self-correlation 1). Findings.v refutes the unrepaired argsort+1. Tie to /repo: "
               "all dense rankings up to length 5 (thorough 7) + random to 40; comparators from rankings listed in different "
               "orders, tables by label."),
@@ -252,7 +262,8 @@ CLAIMS.update({
     "C20": dict(
         text=("PARTIAL BY NATURE. Theorems about the abstraction 'the state of a method object is its parameters': the output "
               "for a probe matrix is the same at every position of every call sequence (also after failing calls), equal "
-              "parameters give equal behaviour, calls leave the object unchanged. That the real classes keep no other state "
+              "parameters give equal behaviour, calls leave the object unchanged; hidden state per object, and state shared by "
+              "the whole process, are characterised by probe tests (single steps suffice). That the real classes keep no other state "
               "is established only by the correspondence: every introspected class (plus pipelines, user methods, filters, "
               "randomised imputers) as one object over sequences of matrices of varying shape and criteria layout incl. "
               "failing calls; probe outputs bit-identical to a fresh object's, __dict__ snapshot unchanged, a twin in lock-step."),
